@@ -179,7 +179,8 @@ class ObjectField:
 
     @property
     def skip(self) -> SkipMetadata:
-        return self.metadata.get(SKIP_METADATA, SkipMetadata())
+        # Annotated metadata included, as for alias / flatten / none_as_undefined
+        return self.full_metadata.get(SKIP_METADATA, SkipMetadata())
 
     def skippable(self, default: bool, none: bool) -> bool:
         return bool(
